@@ -38,6 +38,8 @@ def oracle(rxs, names, x0, T, stream):
         if L == 0:
             t = T[i]
         else:
+            if pos + 2 > len(stream):
+                return None          # explosive model: the recorded stream is exhausted, the case is skipped
             u = stream[pos]; pos += 1
             prop = t + (-1.0 / L * math.log(u))
             if prop > T[i]:
@@ -84,7 +86,7 @@ def main():
             res = SSASimulator().py_simulate(itf, T).py_get_result()
             want = oracle(rxs, order, x0, T, stream)
             n += 1
-            if res.max() > 1e6:
+            if want is None or res.max() > 1e6:
                 continue
             if not np.array_equal(res, want):
                 bad = int(np.argmax((res != want).any(axis=1)))
@@ -105,6 +107,18 @@ def main():
     n += 1
     if any(w[i] == 0 for i in tail) or (len(tail) >= 10 and len(set(tail)) < len(tail) // 2):
         return dict(reproduced=True, call='py_sample_discrete(weights [2^24, 0.8 x 2000, 0.0])', observed=tail[:12], expected='indices of positive weight, spread over the slow reactions')
+    # the waiting time is exponential with rate Lambda for EVERY positive Lambda: slow kinetics on a long horizon (rates scaled by c, times by 1/c;
+    # the master equation is invariant) still decays; with 12 molecules, unit rate and horizon 40/c the probability of any survivor is < 1e-16
+    for c in (1.0, 1e-6, 1e-13, 1e-20):
+        M = Model(species=['X'], reactions=[(['X'], [], 'massaction', {'k': 1.0 * c})], initial_condition_dict={'X': 12})
+        _seed(rng.randint(1, 10 ** 6))
+        T = np.linspace(0, 40.0 / c, 9)
+        for cls in (ModelCSimInterface, SafeModelCSimInterface):
+            res = SSASimulator().py_simulate(cls(M), T).py_get_result()
+            n += 1
+            if res[-1, 0] != 0:
+                return dict(reproduced=True, call='SSASimulator.py_simulate(%s), X -> 0 at rate %g from X=12 over np.linspace(0, %g, 9)' % (cls.__name__, c, 40.0 / c),
+                            observed=res[:, 0].tolist(), expected='extinct by the last row (waiting times are exponential with rate Lambda > 0, however small)')
     return dict(reproduced=False, evaluations=n)
 
 
